@@ -607,7 +607,19 @@ func execPerturb(p *WTPlan, pj []byte, keepLog bool) harness.RunOut {
 		if daemonsLeft {
 			break // the implementation's daemons are tied to the first bubble
 		}
-		v, log := perturbOnce(p, script)
+		v, log := perturbOnce(p, script, 10*time.Second)
+		if v != nil && v.Oracle == "wt.watchdog" {
+			// No progress for 10 s of REAL time. A loaded machine can do that to
+			// a correct implementation; a goroutine blocked for ever on the mutex
+			// (which synctest cannot see) does it every time. Ask again with a
+			// limit that only the second explanation reaches.
+			out.Probes["perturb_watchdog_retries"]++
+			out.Tainted, out.Restart = true, true // the first attempt's goroutines are still there
+			v, log = perturbOnce(p, script, 120*time.Second)
+			if v != nil && v.Oracle == "wt.watchdog" {
+				v.Oracle, v.Key = "wt.stuck", "wt.stuck/perturb"
+			}
+		}
 		out.Probes["perturb_bubbles"]++
 		if keepLog {
 			out.Log = append(out.Log, fmt.Sprintf("-- repetition %d", rep))
@@ -622,7 +634,7 @@ func execPerturb(p *WTPlan, pj []byte, keepLog bool) harness.RunOut {
 	return out
 }
 
-func perturbOnce(p *WTPlan, script []uint8) (*harness.Violation, []string) {
+func perturbOnce(p *WTPlan, script []uint8, watchdog time.Duration) (*harness.Violation, []string) {
 	var log []string
 	var mu sync.Mutex
 	var evMu sync.Mutex // protects evs (never held while blocking)
@@ -719,9 +731,9 @@ func perturbOnce(p *WTPlan, script []uint8) (*harness.Violation, []string) {
 	var r res
 	select {
 	case r = <-done:
-	case <-time.After(5 * time.Second):
+	case <-time.After(watchdog):
 		synyield.Install(nil)
-		return &harness.Violation{Oracle: "wt.stuck", Key: "wt.stuck/perturb", Msg: fmt.Sprintf("WaitTimeout did not return: the bubble made no progress for 5 s of real time (a goroutine is blocked on the mutex for ever); plan %+v", *p)}, log
+		return &harness.Violation{Oracle: "wt.watchdog", Key: "wt.watchdog", Msg: fmt.Sprintf("WaitTimeout did not return: the bubble made no progress for %v of real time, twice (a goroutine is blocked on the mutex for ever); plan %+v", watchdog, *p)}, log
 	}
 	evMu.Lock()
 	defer evMu.Unlock()
